@@ -6,6 +6,8 @@ Used == {s \in Slot : bx[s].kind # "free"}
 FreeS == {s \in Slot : bx[s].kind = "free"}
 Actions ==
   {[op |-> "New", s |-> s, kind |-> "cbox", pk |-> pk, n |-> 1, via |-> v] : s \in FreeS, pk \in {"heavy", "zst", "pod"}, v \in {"from_t", "from_box", "from_tuple"}}
+  \cup {[op |-> "New", s |-> s, kind |-> "cbox", pk |-> pk, n |-> 1, via |-> v] : s \in FreeS, pk \in {"heavy", "pod"}, v \in {"foreign", "loan"}}
+  \cup {[op |-> "EnvRelease"] : x \in {1}}
   \cup {[op |-> "New", s |-> s, kind |-> "sbox", pk |-> pk, n |-> n, via |-> "from_box"] : s \in FreeS, pk \in {"heavy", "zst", "pod"}, n \in {0, 1, 3}}
   \cup {[op |-> "New", s |-> s, kind |-> "obj", pk |-> pk, n |-> 1, via |-> "from_t"] : s \in FreeS, pk \in {"heavy", "zst", "pod"}}
   \cup {[op |-> "IntoOpaque", s |-> s] : s \in Used}
